@@ -23,6 +23,23 @@ type fanArtifact struct {
 }
 
 func fanGraph(r *common.Rand) *dag.Graph {
+	for {
+		g := fanGraphOnce(r)
+		seen := map[string]bool{}
+		dup := false
+		for _, n := range g.Nodes {
+			if seen[n.Desc.Digest.String()] {
+				dup = true
+			}
+			seen[n.Desc.Digest.String()] = true
+		}
+		if !dup {
+			return g
+		}
+	}
+}
+
+func fanGraphOnce(r *common.Rand) *dag.Graph {
 	var es []dag.Encoded
 	var descs []ocispec.Descriptor
 	add := func(e dag.Encoded) int {
@@ -121,9 +138,10 @@ func fanGraph(r *common.Rand) *dag.Graph {
 		}
 		ix.Annotations = annotations()
 		if ix.Annotations == nil {
-			// keep index bytes unique
-			ix.Annotations = map[string]string{"verif.n": fmt.Sprintf("%d-%x", len(es), r.U64())}
+			ix.Annotations = map[string]string{}
 		}
+		// keep index bytes unique
+		ix.Annotations["verif.n"] = fmt.Sprintf("%d-%x", len(es), r.U64())
 		e.Annotations = ix.Annotations
 		e.Bytes, _ = json.Marshal(ix)
 		return add(e)
